@@ -129,6 +129,7 @@ type Pkt struct {
 	CurrINF      uint8
 	CurrHF       uint8
 	Segs         []Seg
+	RawPath      []byte // if set (PathSCION / PathEPIC): the serialised SCION path (meta, info and hop fields) to use instead of Segs
 	// EPIC
 	EpicTS, EpicCtr uint32
 	PHVF, LHVF      [4]byte
@@ -171,9 +172,15 @@ func (p *Pkt) Serialize() ([]byte, Layout) {
 	switch p.PathType {
 	case PathSCION:
 		pathLen = 4 + 8*len(p.Segs) + 12*nh
+		if p.RawPath != nil {
+			pathLen = len(p.RawPath)
+		}
 		lay.MetaOff = lay.PathOff
 	case PathEPIC:
 		pathLen = 16 + 4 + 8*len(p.Segs) + 12*nh
+		if p.RawPath != nil {
+			pathLen = 16 + len(p.RawPath)
+		}
 		lay.MetaOff = lay.PathOff + 16
 	case PathOneHop:
 		pathLen = 8 + 12 + 12
@@ -216,6 +223,26 @@ func (p *Pkt) Serialize() ([]byte, Layout) {
 		o += 16
 		fallthrough
 	case PathSCION:
+		if p.RawPath != nil {
+			copy(b[o:], p.RawPath)
+			w := binary.BigEndian.Uint32(p.RawPath)
+			ninf := 0
+			nh := 0
+			for _, sh := range []uint{12, 6, 0} {
+				if l := int(w>>sh) & 63; l > 0 {
+					ninf++
+					nh += l
+				}
+			}
+			for i := 0; i < ninf; i++ {
+				lay.InfoOff = append(lay.InfoOff, o+4+8*i)
+			}
+			for i := 0; i < nh; i++ {
+				lay.HopOff = append(lay.HopOff, o+4+8*ninf+12*i)
+			}
+			o += len(p.RawPath)
+			break
+		}
 		var sl [3]uint32
 		for i, s := range p.Segs {
 			if i < 3 {
